@@ -214,4 +214,20 @@ PROPS = {
         "level_text": "Every explored search trace (~5e4 quick / ~4e6 thorough, incl. aborted searches at every abort point and games on warm and heavily colliding tables) satisfied the trace specification: ~1e5+ PVs legal move by move, returned move = head of the last non-empty PV, ponder legal. Held on the executions observed.",
         "level_note": "trusted: harness/ref for legality; info grammar as printed by search.go",
     },
+    "C08": {
+        "pkg": "./c08",
+        "stages": [
+            {"name": "main", "timeout_q": 1800, "timeout_t": 10800},
+            {"name": "race", "flags": ["-race"], "timeout_q": 1800, "timeout_t": 10800},
+        ],
+        "rule": "cases = searches of lock-step games (40 moves, tables carry over, no Clear between moves) on three independent engine instances: A plays with soft node limits and records the node count N_i each search ended with, "
+                "B replays every search with the hard budget N_i, C repeats A's requests. After EVERY move: (score, move, ponder, Counters.Nodes), the info lines with the time field stripped, and a digest of the complete persistent state "
+                "(every TT bucket, generation counter, all history tables - via the export hooks) must be equal between A and C and between A and B (B may add one trailing `info depth d nodes N` abort line), and B's node count must not exceed N_i. "
+                "Half of the games start their searches WITHOUT the Counters option (as the UCI driver does; node counts are then read from the info lines), half answer each engine move with an unsearched pseudo-random reply so that roots are not already in the table, one move in five has a tiny soft limit (1..12 nodes). Games run concurrently on 16 goroutines with CPU burners and GOMAXPROCS varied during the run, on plain and -race builds; table sizes 32000 B / 1 MiB / 8 MiB; soft limits 1..20000 nodes. "
+                "evaluations = searches; distinct_nontrivial = distinct games.",
+        "assumptions": ["soft TIME limits are represented by soft NODE limits (the search treats both identically between iterations); wall-clock is not an observable", "digest = FNV-style hash over all table bytes and history entries"],
+        "technique": "runtime monitor: lock-step differential comparison of independent engine instances (results, traces, persistent-state digests) along whole games under load, with the Go race detector",
+        "level_text": "In every explored game, after every move, engines in the same state given the same request produced identical results, traces and persistent state, and hard-budget replays reproduced soft-limited searches exactly without exceeding the budget (~6e3 searches quick / ~6e4 thorough per build); no race report across concurrently running instances. Held on the executions observed.",
+        "level_note": "trusted: digest hooks cover tt, gen and the four history tables (the whole state Search keeps between calls); scheduling diversity is whatever 16 goroutines + burners + GOMAXPROCS changes produce",
+    },
 }
